@@ -84,21 +84,23 @@ uint64_t do_op(const void *pool_, void *priv_, const BOp &op) {
     auto slice = [&](const ST::string &x, unsigned sel) {
         if (x.empty()) return ST::string::from_validated("x", 1);
         size_t a = sel % x.size(); while (a > 0 && ((unsigned char)x.c_str()[a] & 0xC0) == 0x80) --a;
-        static const unsigned NLEN[8] = {1, 2, 3, 4, 1, 9, 17, 33};      // short needles mostly; long ones reach the paths that only run for long needles
+        static const unsigned NLEN[8] = {1, 2, 3, 4, 70, 9, 17, 33};      // short needles mostly; long ones reach the paths that only run for long needles
         size_t b = std::min(x.size(), a + NLEN[(sel >> 8) % 8]); while (b < x.size() && ((unsigned char)x.c_str()[b] & 0xC0) == 0x80) ++b;
         return x.substr((ST_ssize_t)a, b - a);
     };
     try {
         switch (op.kind) {
-        case 0: { ST::string n = slice(s, op.c); h.u64((uint64_t)s.find(n, cs)); h.u64((uint64_t)s.find(n.c_str(), cs)); h.u64((uint64_t)s.find(op.c % (s.size() + 1), n, cs)); h.u64((uint64_t)s.find('e', cs)); h.u64((uint64_t)s.find(t)); break; }
-        case 1: { ST::string n = slice(s, op.c); h.u64((uint64_t)s.find_last(n, cs)); h.u64((uint64_t)s.find_last(n.c_str(), cs)); h.u64((uint64_t)s.find_last('e', cs)); h.u64((uint64_t)s.find_last(t)); break; }
-        case 2: { ST::string n = slice(s, op.c); h.u8(s.contains(n, cs)); h.u8(s.starts_with(n, cs)); h.u8(s.ends_with(n, cs)); h.u8(s.starts_with(t)); h.u8(s.ends_with(t.c_str())); h.u8(s.contains('a')); break; }
+        case 0: { ST::string n = slice(s, op.c);
+                  h.u64((uint64_t)s.find(t, cs)); h.u64((uint64_t)s.find_last(t, cs)); h.u8(s.contains(t, cs)); h.u64((uint64_t)t.find(s, cs));      /* whole strings as needles, either case mode: needles of every length up to 5000 */
+                  h.u64((uint64_t)s.find(n, cs)); h.u64((uint64_t)s.find(n.c_str(), cs)); h.u64((uint64_t)s.find(op.c % (s.size() + 1), n, cs)); h.u64((uint64_t)s.find('e', cs)); h.u64((uint64_t)s.find(t)); break; }
+        case 1: { ST::string n = slice(s, op.c); h.u64((uint64_t)s.find_last(n, cs)); h.u64((uint64_t)s.find_last(n.c_str(), cs)); h.u64((uint64_t)s.find_last('e', cs)); h.u64((uint64_t)s.find_last(t)); h.u64((uint64_t)s.find_last(t, cs)); h.u64((uint64_t)t.find_last(s, cs)); break; }
+        case 2: { ST::string n = slice(s, op.c); h.u8(s.contains(n, cs)); h.u8(s.starts_with(n, cs)); h.u8(s.ends_with(n, cs)); h.u8(s.starts_with(t)); h.u8(s.ends_with(t.c_str())); h.u8(s.contains('a')); h.u8(s.contains(t, cs)); h.u8(t.contains(s, cs)); h.u8(s.starts_with(t, cs)); h.u8(s.ends_with(t, cs)); break; }
         case 3: { int c1 = s.compare(t, cs), c2 = s.compare_n(t, op.c % 20, cs), c3 = s.compare(t.c_str()); h.u8(c1 < 0 ? 1 : c1 > 0 ? 2 : 0); h.u8(c2 < 0 ? 1 : c2 > 0 ? 2 : 0); h.u8(c3 < 0 ? 1 : c3 > 0 ? 2 : 0); h.u8(s.compare_i(t) == 0); break; }
         case 4: { h.u8(s == t); h.u8(s != t); h.u8(s < t); h.u64(ST::hash()(s)); h.u64(ST::hash_i()(s)); h.u64(std::hash<ST::string>()(t)); h.u8(ST::less_i()(s, t)); h.u8(ST::equal_i()(s, t)); break; }
         case 5: { hs(h, s.substr((ST_ssize_t)(op.c % (s.size() + 1)), op.c % 7)); hs(h, s.left(op.c % 20)); hs(h, s.right(op.c % 9)); hs(h, s.substr(0)); hs(h, s.substr(-(ST_ssize_t)(op.c % 5))); break; }
         case 6: { static const char *const SETS[] = {" \tabc", "xyz \n", " \t\r\n.,;:!?()[]{}'\"-", "aeiouAEIOU \t", "0123456789+-.eE", " ", "abcdefghijklmnopqrstuvwxyz"};      // short and long sets
                   hs(h, s.trim()); hs(h, s.trim_left(SETS[op.c % 7])); hs(h, s.trim_right(SETS[(op.c >> 3) % 7])); hs(h, s.trim(SETS[(op.c >> 6) % 7])); break; }
-        case 7: { ST::string n = slice(s, op.c); hs(h, s.before_first(n, cs)); hs(h, s.after_first(n.c_str(), cs)); hs(h, s.before_last(' ')); hs(h, s.after_last(n, cs)); break; }
+        case 7: { ST::string n = slice(s, op.c); hs(h, s.before_first(n, cs)); hs(h, s.after_first(n.c_str(), cs)); hs(h, s.before_last(' ')); hs(h, s.after_last(n, cs)); hs(h, s.before_first(t, cs)); hs(h, t.after_last(s, cs)); break; }
         case 8: { hs(h, s.to_upper()); hs(h, s.to_lower()); break; }
         case 9: { ST::string n = slice(s, op.c); const ST::string &rt = (s.size() > 200 && t.size() > 200) ? P.strs[1] : t;      // (long x long would be quadratic: megabytes of output)
                   hs(h, s.replace(n, rt, cs)); hs(h, s.replace(n.c_str(), "<>", cs)); hs(h, s.replace(t, n));
